@@ -59,6 +59,7 @@ theorem afterC_copy_id : ∀ (c : Conv) (v : Val), afterC true c v = v
   | .tagged _ _ _ (.adjacent _ _), v => by simp [afterC]
   | .seq _ c, v => by simp only [afterC]; exact mapSeqV_id _ (afterC_copy_id c) v
   | .nested c, v => by simp only [afterC]; exact mapSeqV_id _ (afterC_copy_id c) v
+  | .vol c, v => by simp only [afterC]; rw [afterC_copy_id c v]; exact mapSeqV_id _ (afterC_copy_id c) v
   | .tuple cs, v => by simp only [afterC]; exact zipSeqV_id _ (afterCs_copy_id cs) v
   | .union cs, v => by simp only [afterC]; exact foldApply_id _ v (afterCs_copy_id cs)
   | .dict _ _ vc, v => by simp only [afterC]; exact mapValsV_id _ (fun _ x => afterC_copy_id vc x) v
